@@ -7,6 +7,7 @@ Oracle: every build is bit-identical to the single-process reference of its conf
 every earlier build of the same object; nothing is relaxed under scheduling faults.
 """
 import hashlib
+import json
 
 from sim import core, simpool
 
@@ -56,8 +57,8 @@ def warm():
 
 def sizes(tier):
     if tier == "thorough":
-        return {"runs": 60000, "block": 100, "det": 64, "det_fresh": 8, "timeout": 3300, "conformance": 16}
-    return {"runs": 2400, "block": 25, "det": 24, "det_fresh": 6, "timeout": 900, "conformance": 2}
+        return {"runs": 60000, "block": 100, "det": 64, "det_fresh": 8, "timeout": 3300, "conformance": 16, "order": 3000}
+    return {"runs": 2400, "block": 25, "det": 24, "det_fresh": 6, "timeout": 900, "conformance": 2, "order": 150}
 
 
 # ----------------------------------------------------------------------------------------------
@@ -131,8 +132,23 @@ def gen_plan(rng, tier, index=0):
     n_obj = rng.weighted([(1, 5), (2, 3), (3, 1)])
     big = tier == "thorough" and rng.chance(0.2)
     objs = [gen_config(rng.sub("cfg", i), big) for i in range(n_obj)]
+    if n_obj >= 2 and rng.chance(0.4):
+        # object 1 is object 0 with exactly one ingredient changed (nothing that depends on it may be shared between objects)
+        v = json.loads(json.dumps(objs[0]))
+        rv = rng.sub("variant")
+        key = rv.choice(["r0s", "L0s", "wl", "gs_pos", "alts", "diams", "gs_alt"])
+        if key == "gs_pos":
+            v[key] = [[round(x + 3.0, 3), round(y - 2.0, 3)] for x, y in v[key]]
+        elif key == "gs_alt":
+            v[key] = [0.0 if a else 80000.0 for a in v[key]]
+        elif key == "alts":
+            v[key] = [round(a * 0.5 + 100.0, 2) for a in v[key]]
+        else:
+            f = rv.choice([0.5, 2.0, 1.25])
+            v[key] = [round(x * f, 10) for x in v[key]]
+        objs[1] = v
     r = rng.sub("hist")
-    forked_run = r.chance(0.04)
+    forked_run = r.chance(0.08)
     steps = []
     n_steps = r.randint(3, 24 if big else 10)
     for s in range(n_steps):
@@ -218,6 +234,7 @@ def execute(plan, keep_log=False):
     finally:
         kern.__exit__(None, None, None)
     res.digest = log.digest()
+    res.sched_digest = log.full_digest()
     if keep_log:
         res.events = log.events
     return res
@@ -288,7 +305,7 @@ def _run_steps(plan, sc, res, log, kern, objs_cfg, n_obj, refs, objs, last, buil
             for mp_ in kern.maps:
                 comp = mp_.get("completion")
                 comp = list(comp) if comp is not None else []
-                log.add(si, "map", mp_["kind"], mp_["workers"], mp_["chunks"], comp)
+                log.sched(si, "map", mp_["kind"], mp_["workers"], mp_["chunks"], comp)
                 res.count("pool.batches")
                 if mp_["workers"] > len(mp_["chunks"]):
                     res.count("probe.more_workers_than_chunks")
@@ -301,6 +318,7 @@ def _run_steps(plan, sc, res, log, kern, objs_cfg, n_obj, refs, objs, last, buil
             res.count("probe.rebuild_after_mode_toggle")
         if outcome[0] == "ok":
             log.add(si, "build", o, k_threads, hashlib.sha256(outcome[1][2]).hexdigest()[:16])
+            res.step_results["build%s" % st.get("k", si)] = hashlib.sha256(outcome[1][2]).hexdigest()[:16]
         else:
             log.add(si, "build", o, k_threads, outcome[0], outcome[1])
         if ref[0] != "ok":
@@ -334,6 +352,36 @@ def _run_steps(plan, sc, res, log, kern, objs_cfg, n_obj, refs, objs, last, buil
 # ----------------------------------------------------------------------------------------------
 # shrinking hints
 # ----------------------------------------------------------------------------------------------
+def order_variants(plan):
+    """the same builds in reverse order: what a build returns must not depend on the builds (of this or of other
+    objects) that ran before it"""
+    import copy
+    a = copy.deepcopy(plan)
+    a["steps"] = [dict(st, k=i) for i, st in enumerate(a["steps"]) if st["op"] == "build"]
+    if len(a["steps"]) < 2:
+        return None
+    b = copy.deepcopy(a)
+    b["steps"] = list(reversed(b["steps"]))
+    return [a, b]
+
+
+def order_ops(variants):
+    return [st["k"] for st in variants[0]["steps"]]
+
+
+def order_drop(variants, drop):
+    import copy
+    drop = set(drop)
+    out = []
+    for v in variants:
+        c = copy.deepcopy(v)
+        c["steps"] = [st for st in c["steps"] if st["k"] not in drop]
+        if not c["steps"]:
+            return None
+        out.append(c)
+    return out
+
+
 def simplify(plan):
     import copy
     steps = plan["steps"]
@@ -408,17 +456,31 @@ def _conformance_job(args):
         except Exception as e:
             return ("raised", type(e).__name__)
 
-    with simpool.Kernel(None, None) as k:
-        k.configure(gen_sched(rng.sub("s")), "inproc")
-        sim = attempt(lambda: make_object(sc, cfg, threads).make_covariance_matrix())
-    before = set(p.pid for p in multiprocessing.active_children())
     real = attempt(lambda: make_object(sc, cfg, threads).make_covariance_matrix())     # facade inactive -> real pool
+    # aotools never closes its pool: terminate every real pool that exists now (killing only the workers is not enough,
+    # the pool's maintenance thread would start new ones), then whatever children are left
+    for o in gc.get_objects():
+        try:
+            if isinstance(o, simpool._REAL["mpp.Pool"]) and not isinstance(o, simpool.SimPool):
+                o.terminate()
+        except Exception:
+            pass
     for p in multiprocessing.active_children():
-        if p.pid not in before:
-            p.kill()
-            p.join(5)
+        p.kill()
+        p.join(2)
     gc.collect()
+    try:
+        with simpool.Kernel(None, None) as k:
+            k.configure(gen_sched(rng.sub("s")), "inproc")
+            sim = attempt(lambda: make_object(sc, cfg, threads).make_covariance_matrix())
+    except Exception as e:
+        sim = ("raised", type(e).__name__)
     return {"index": i, "cfg": cfg, "threads": threads, "real_eq_ref": real == ref, "sim_eq_ref": sim == ref}
+
+
+def _conformance_isolated(args):
+    # a fresh fork per job: a tree that caches pools in module state must not carry them from one job to the next
+    return core.in_fresh_fork(_conformance_job, args, watchdog=280)
 
 
 def extra_stage(tier, base_seed, farm):
@@ -426,7 +488,7 @@ def extra_stage(tier, base_seed, farm):
     out = {"coverage": {}, "violations": []}
     done, bad = 0, []
     for i in range(n):
-        r = farm.call(_conformance_job, (base_seed, i), timeout=300)
+        r = farm.call(_conformance_isolated, (base_seed, i), timeout=300)
         if "skipped" in r:
             continue
         done += 1
